@@ -21,7 +21,7 @@ use std::time::{Duration, Instant};
 use verif_harness::util::*;
 
 const REUSE_DATA: &[u8] = b"Z";
-const SCAN_TIMEOUT_S: u64 = 2;
+const SCAN_TIMEOUT_S: u64 = 1;
 const CHILD_ALARM_S: u32 = 50;
 const CHILD_HARD_S: u64 = 60;
 const RLIMIT_AS_BYTES: u64 = 8 << 30;
@@ -337,7 +337,10 @@ fn gen_shape(rng: &mut Rng, fs: i64, cnt: i64, others: &[Shape]) -> Shape {
                 let q_v = big_q(rng);
                 // keep scans short: either trunc traps, or few iterations are needed
                 let n = hi_v.wrapping_sub(lo_v).wrapping_add(1);
+                // keep scans short: with the saturating conversion an out-of-range positive count makes the loop
+                // run over the whole range until the scan timeout (a documented error): such cases are kept, but rare
                 if n > 0 && !pct_traps(n, q_v) { let m = pct_value(n, q_v); if m > 50_000.0 && n > 50_000 { continue; } }
+                if n > 50_000 && pct_traps(n, q_v) && pct_value(n, q_v) > 0.0 && !rng.chance(1, 10) { continue; }
                 let lo = if rng.chance(1, 2) { RtInt { leaf: Leaf::Filesize, op: Op::Const, k: lo_v } } else { gen_rt_to(rng, fs, cnt, lo_v) };
                 let hi = if rng.chance(1, 2) { RtInt { leaf: Leaf::Filesize, op: Op::Const, k: hi_v } } else { gen_rt_to(rng, fs, cnt, hi_v) };
                 if lo.is_const() && hi.is_const() && lo_v > hi_v { continue; }
